@@ -637,6 +637,11 @@ class vDatetime(TimeBase):
     def __init__(self, dt, params={}):
         self.dt = dt
         self.params = Parameters(params)
+        # like vDDDTypes: the zone id is a parameter of the value, not a side
+        # effect of rendering it
+        tzid = tzid_from_dt(dt) if isinstance(dt, datetime) else None
+        if tzid is not None and tzid != 'UTC':
+            self.params.update({'TZID': tzid})
 
     def to_ical(self):
         dt = self.dt
@@ -645,8 +650,6 @@ class vDatetime(TimeBase):
         s = f"{dt.year:04}{dt.month:02}{dt.day:02}T{dt.hour:02}{dt.minute:02}{dt.second:02}"
         if tzid == 'UTC':
             s += "Z"
-        elif tzid:
-            self.params.update({'TZID': tzid})
         return s.encode('utf-8')
 
     @staticmethod
